@@ -186,6 +186,16 @@ class ObjGen:
                        [Ctor([Param(P("str"), "l"), Param(P("T"), "iv")], [Super(Var("iv")), Expr(FAsg(This(), "label", Var("l")))])],
                        [], tparams=["T"], base_targs=[P("T")])
             self.gen_classes.append(lb)
+        if r.random() < 0.6:
+            # a generic class whose methods create OTHER specialisations of Box while its own T is bound differently
+            reg = Class("Reg", "", [Field(P("T"), "item")],
+                        [Method("label", [], P("str"), [Decl(C("Box", [P("str")]), "bx", New("Box", S("reg"), targs=[P("str")])),
+                                                        Ret(MCall(Var("bx"), "get"))]),
+                         Method("boxed", [], C("Box", [P("T")]), [Ret(New("Box", Var("item"), targs=[P("T")]))]),
+                         Method("count2", [], P("int"), [Decl(C("Box", [P("int")]), "bi", New("Box", I(5), targs=[P("int")])),
+                                                         Ret(MCall(Var("bi"), "count"))])],
+                        [Ctor([Param(P("T"), "it")], [Expr(FAsg(This(), "item", Var("it")))])], [], tparams=["T"])
+            self.gen_classes.append(reg)
 
     # ------------------------------------------------------------------ main
     def dyn_classes_for(self, static):
@@ -236,7 +246,7 @@ class ObjGen:
         r = self.r
         body = []
         live = {}          # var -> (static, dynamic)
-        names = iter(["o1", "o2", "o3", "o4", "o5", "o6", "o7", "o8"])
+        names = ("o%d" % i for i in range(1, 1000))
         # locals named like fields, to make scoping visible
         for fn in r.sample(POOL, 2):
             body.append(Decl(P("int"), fn, I(r.randint(50, 59))))
@@ -321,28 +331,47 @@ class ObjGen:
 
     def generic_use(self):
         r = self.r
-        out = []
         insts = [("int", lambda: I(r.randint(1, 9))), ("str", lambda: S(r.choice(["p", "q"])))]
+        blocks = []
         k = 0
+        b1 = []
         for tn, mk in insts:
             for _ in range(r.randint(1, 2)):
                 k += 1
                 v = "g%d" % k
                 ty = C("Box", [P(tn)])
                 if r.random() < 0.3:
-                    out.append(Decl(ty, v, dict(New("Box", mk(), diamond=True), inferred=[P(tn)])))
+                    b1.append(Decl(ty, v, dict(New("Box", mk(), diamond=True), inferred=[P(tn)])))
                 else:
-                    out.append(Decl(ty, v, New("Box", mk(), targs=[P(tn)])))
-                out.append(Echo(MCall(Var(v), "get")))
+                    b1.append(Decl(ty, v, New("Box", mk(), targs=[P(tn)])))
+                b1.append(Echo(MCall(Var(v), "get")))
                 if r.random() < 0.5:
-                    out.append(Expr(MCall(Var(v), "put", mk())))
-                    out.append(Echo(MCall(Var(v), "get")))
-                out.append(Echo(MCall(Var(v), "count")))      # static field is per specialisation
-        if len(self.gen_classes) > 1:
-            out.append(Decl(C("LBox", [P("int")]), "lb", New("LBox", S("L"), I(7), targs=[P("int")])))
-            out.append(Echo(Bin("+", MCall(Var("lb"), "show"), MCall(Var("lb"), "get"))))
-            out.append(Echo(MCall(Var("lb"), "count")))
-        return out
+                    b1.append(Expr(MCall(Var(v), "put", mk())))
+                    b1.append(Echo(MCall(Var(v), "get")))
+                b1.append(Echo(MCall(Var(v), "count")))      # static field is per specialisation
+        if r.random() < 0.8:
+            blocks.append(b1)
+        if any(c["name"] == "Reg" for c in self.gen_classes):
+            b2 = []
+            for tn, mk in r.sample(insts, r.randint(1, len(insts))):
+                k += 1
+                v = "rg%d" % k
+                b2.append(Decl(C("Reg", [P(tn)]), v, New("Reg", mk(), targs=[P(tn)])))
+                order = ["label", "boxed", "count2"]
+                r.shuffle(order)
+                for m in order[:r.randint(1, 3)]:
+                    if m == "boxed":
+                        b2.append(Echo(MCall(MCall(Var(v), "boxed"), "get")))
+                    else:
+                        b2.append(Echo(MCall(Var(v), m)))
+            blocks.append(b2)
+        if any(c["name"] == "LBox" for c in self.gen_classes):
+            b3 = [Decl(C("LBox", [P("int")]), "lb", New("LBox", S("L"), I(7), targs=[P("int")])),
+                  Echo(Bin("+", MCall(Var("lb"), "show"), MCall(Var("lb"), "get"))), Echo(MCall(Var("lb"), "count"))]
+            blocks.append(b3)
+        # which specialisation is created first (and from where) varies
+        r.shuffle(blocks)
+        return [st for b in blocks for st in b]
 
     def program(self):
         self.build()
